@@ -17,6 +17,16 @@ for pid in ids:
     if not getattr(m, "READY", False):
         na.append({"property_id": pid, "reason": "check under construction (module exists but is not yet marked READY); not claimed"})
         continue
+    text = getattr(m, "LEVEL_TEXT", "Lean 4 theorems over an executable model, tied to the code by extraction and differential correspondence on every run.")
+    note = getattr(m, "LEVEL_NOTE", "Trusted: Lean kernel; axioms propext/Classical.choice/Quot.sound; hand-written model tied to /repo by correspondence (differential testing) and extraction; harness simulators.")
+    if len(text) < 40:          # a bare "partial"/"proof": say what that means here
+        text = f"{text}: {note}"
+    tr = list(getattr(m, "TRANSLATED", []))
+    if tr:
+        ths = [t.rsplit(".", 1)[-1] for t in getattr(m, "THEOREMS", []) if t.startswith("NauyacaVerif.Translated.")]
+        text += (" Translation tie: on every run " + ", ".join(tr) + " are re-translated from the current source into Lean definitions (harness/translate.py) and "
+                 "proved against the hand-written model (" + ", ".join(ths) + "); an edit that changes what they compute breaks a proof, one that leaves the "
+                 "translatable subset fails the obligation translate:<fn>.")
     checks.append({
         "property_id": pid,
         "quick_cmd": f"./check {pid} --tier quick",
@@ -24,9 +34,9 @@ for pid in ids:
         "evidence_file": f"evidence/{pid}.json",
         "replay_cmd_template": f"./check {pid} --replay {{path}}",
         "engine": "lean4-proof+correspondence",
-        "level_claimed": {"category": "proof", "text": getattr(m, "LEVEL_TEXT", "Lean 4 theorems over an executable model, tied to the code by extraction and differential correspondence on every run."),
+        "level_claimed": {"category": "proof", "text": text,
                           "design_ref": f"DESIGN.md §5 {pid}"},
-        "level_note": getattr(m, "LEVEL_NOTE", "Trusted: Lean kernel; axioms propext/Classical.choice/Quot.sound; hand-written model tied to /repo by correspondence (differential testing) and extraction; harness simulators."),
+        "level_note": note,
         "technique": getattr(m, "TECHNIQUE", "Lean 4 machine-checked proof over a hand-written model + differential correspondence with the implementation"),
     })
 man = {
